@@ -130,3 +130,68 @@ def c_limit(ctx, case):
     ctx.close(z, mz, "z at the fixed point vs exact mode", rtol=1e-5, atol=1e-6 * zs)
     if case["jfa"]:
         ctx.close(y, my, "y at the fixed point vs exact mode", rtol=1e-5, atol=1e-6 * (np.abs(my).max() + 1e-300))
+
+
+def g_follow(draw):
+    from vf.props import c11
+
+    c = c11.g_lifecycle(draw)
+    c["step"] = gen.choice(draw, ["fit", "fit", "fit_bag", "ubm", "inplace_U", "inplace_V" if c["jfa"] else "inplace_U",
+                                  "setter_U", "inplace_D", "ubm_variances_setter"])
+    c["K"] = gen.integer(draw, 1, 4)
+    return c
+
+
+@REG.obligation("enrolment_follows_the_machine", g_follow, quick=200, thorough=4000, shard_size=34)
+def c_follow(ctx, case):
+    """A machine that has already enrolled a client and is then re-trained / has U, V or D re-assigned or edited in
+    place / is re-pointed to another UBM enrols like a FRESH machine holding the same U, V, D and UBM, i.e. it performs
+    the block updates of the model it holds NOW (nothing derived from the old parameters survives)."""
+    import dask.bag as db
+
+    m = sut.make_fa(case, em_iterations=case["em"])
+    m.enroll_iterations = int(case["K"])
+    client = [sut.make_stats(s) for s in case["probe"]]
+    m.enroll(client)
+    stats = sut.sessions_of(case)
+    y = np.asarray(case["y"])
+    ubm_params = case["ubm"]
+    step = case["step"]
+    if step == "fit":
+        m.fit(stats, y)
+    elif step == "fit_bag":
+        m.fit(db.from_sequence(stats, npartitions=2), y)
+    elif step == "ubm":
+        ubm_params = dict(case["ubm"], means=np.array(case["ubm"]["means"]) * 0.8 - 0.3,
+                          variances=np.array(case["ubm"]["variances"]) * 1.9)
+        m.ubm = sut.make_gmm(ubm_params)
+    elif step == "ubm_variances_setter":
+        ubm_params = dict(case["ubm"], variances=np.array(case["ubm"]["variances"]) * 2.5)
+        m.ubm.variances = np.array(ubm_params["variances"])
+    elif step == "inplace_U":
+        m.U[...] = np.asarray(m.U) * 0.5 + 0.01
+    elif step == "inplace_V":
+        m.V[...] = np.asarray(m.V) * 1.5 - 0.02
+    elif step == "inplace_D":
+        m.D[...] = np.asarray(m.D) * 0.7
+    else:
+        m.U = np.asarray(m.U) * 0.5 + 0.01
+    ctx.note(True, "jfa" if case["jfa"] else "isv", "step:" + step, "K=%d" % case["K"])
+    fresh_case = dict(case, ubm=ubm_params, U=np.array(m.U), D=np.array(m.D), V=(np.array(m.V) if case["jfa"] else None),
+                      swap_ubm=False, sessions=case["probe"])
+    fresh = sut.make_fa(fresh_case)
+    fresh.enroll_iterations = int(case["K"])
+    got, want = m.enroll(client), fresh.enroll([sut.make_stats(s) for s in case["probe"]])
+    fa = sut.fa_ref(fresh_case)
+    ry, rxs, rz = fa.enroll(sut.nf(case["probe"]), int(case["K"]))[-1]
+    if case["jfa"]:
+        gy, gz = np.asarray(got[0], float).ravel(), np.asarray(got[1], float).ravel()
+        wy, wz = np.asarray(want[0], float).ravel(), np.asarray(want[1], float).ravel()
+        ctx.close(gy, wy, "y after %s vs fresh machine with the same parameters" % step, rtol=1e-9,
+                  atol=1e-12 * (np.abs(wy).max() + 1e-300))
+        ctx.close(gy, ry, "y after %s vs reference block ascent" % step, rtol=1e-6, atol=1e-7 * (np.abs(ry).max() + 1e-300))
+    else:
+        gz, wz = np.asarray(got, float).ravel(), np.asarray(want, float).ravel()
+    ctx.close(gz, wz, "z after %s vs fresh machine with the same parameters" % step, rtol=1e-9,
+              atol=1e-12 * (np.abs(wz).max() + 1e-300) + 1e-300)
+    ctx.close(gz, rz, "z after %s vs reference block ascent" % step, rtol=1e-6, atol=1e-7 * (np.abs(rz).max() + 1e-300) + 1e-300)
